@@ -45,13 +45,15 @@ def schema_text(depth):
     lines = ['#KEY: "KEY"/_/_/_', '#site: "site"', '#root: #site/#KEY', '#aux: #site/"aux"/_/#KEY <= #root', '#zaux: #site/"zaux"/_/#KEY <= #root']
     prev = '#root'
     for k in range(1, depth + 1):
-        lines.append(f'#l{k}: #site/"l{k}"/id{k}/#KEY <= #aux | {prev} | #zaux')
+        lines.append(f'#l{k}: #site/"l{k}"/id{k}/#KEY <= #aux | {prev} | #zaux' + (' | #rootkey' if k == 1 else ''))
         prev = f'#l{k}'
     # the data name carries the identity (idK) of the key that may sign it: a pattern shared between packet and key rule
     lines.append(f'#data: #site/"data"/id{depth}/x <= #zaux | {prev} | #aux' if depth >= 1 else f'#data: #site/"data"/_/x <= {prev}')
     # a catch-all rule that every data (and certificate-free four-component) name matches as well, signable only by keys nobody
     # holds: a packet name that matches several signed rules which bind different patterns
     lines.append('#misc: #site/_/_/_ <= #zaux')
+    # the schema also lets the bare KEY NAME of the root sign level 1 - a name under which no certificate exists
+    lines.append('#rootkey: #site/"KEY"/_ <= #root')
     lines.append('#amisc: #site/"data"/_/_ <= #aux')
     return '\n'.join(lines) + '\n'
 
@@ -118,7 +120,7 @@ class Hierarchy:
 
 
 DEVIATIONS = ['none', 'none', 'missing-signature-value', 'signature-type-mismatch', 'mismatched-identity', 'hmac-with-public-key', 'wrong-issuer-level', 'forged-signature', 'substituted-key', 'cert-timeout', 'cert-nack', 'unsigned',
-              'no-key-locator', 'locator-loop', 'foreign-hierarchy', 'digest-signed', 'keychain-holds-unanchored-cert', 'forged-cert-served-on-second-request']
+              'no-key-locator', 'locator-loop', 'foreign-hierarchy', 'digest-signed', 'keychain-holds-unanchored-cert', 'forged-cert-served-on-second-request', 'locator-is-prefix-of-anchor-name']
 _KC = {}
 
 
@@ -292,6 +294,13 @@ def build_case(rng, depth, dev, link=None):
             H.cert_wires[lvl] = rc.make_data(r['name'], content=r['content'], content_type=2, freshness=3600000, sig_type=4,
                                              key_name=H.cert_names[lvl - 1], sig_value=bytes(32))
         H.flaky = {tuple(H.cert_names[lvl]): rng.choice(['drop', 'nack'])}
+    elif dev == 'locator-is-prefix-of-anchor-name':
+        # the level-1 certificate is genuinely signed by the anchor's key but names the anchor's KEY NAME (a proper prefix of the
+        # anchor certificate's name, allowed as a signer by the schema) as its key: no certificate of that name can be retrieved
+        valid = False
+        H.issue(1, Key(rng, 'ec', H.keys[1].name), 0, replace=True, locator=[bytes(c) for c in H.keys[0].name])
+        for l2 in range(2, depth + 1):
+            H.issue(l2, Key(rng, 'ec', H.keys[l2].name), l2 - 1, replace=True)
     elif dev == 'foreign-hierarchy':
         valid = False
         H2 = Hierarchy(rng, depth, '%04x' % rng.getrandbits(16))
@@ -318,6 +327,7 @@ class CertServer:
         self.nacked = set()
         self.requests = []
         self.flaky = {}
+        self.latency = 0.01
         face.on_send = self.on_send
 
     def on_send(self, wire):
@@ -339,7 +349,7 @@ class CertServer:
             return
         w = self.served.get(name)
         if w is not None:
-            loop.call_later(0.01, self.face.deliver_task, w)
+            loop.call_later(self.latency, self.face.deliver_task, w)
 
 
 async def validate(validator, wire):
@@ -370,6 +380,10 @@ def check_single(ctx, rng):
             srv = CertServer(face)
             srv.served, srv.unserved, srv.nacked = served, unserved, nacked
             srv.flaky = getattr(H, 'flaky', {})
+            # a slow network: every certificate arrives well inside its own Interest's lifetime (4 s), the whole chain takes longer
+            srv.latency = 1.6 if (dev == 'none' and depth >= 3 and i % 2 == 0) else 0.01
+            if srv.latency > 1:
+                ctx.event('valid-chain-over-a-slow-network')
             checker = make_checker(depth, i // 3)
             storage = MemoryKeyStorage() if i % 2 else None
             try:
@@ -695,7 +709,7 @@ def run(ctx):
     check_single(ctx, rng)
     check_anchor(ctx, rng)
     check_histories(ctx, rng)
-    need = ['verdict-accept', 'verdict-reject', 'history-run', 'anchor-ok', 'anchor-wrong-name', 'same-instance-history'] + ['deviation-' + d for d in set(DEVIATIONS)]
+    need = ['valid-chain-over-a-slow-network', 'verdict-accept', 'verdict-reject', 'history-run', 'anchor-ok', 'anchor-wrong-name', 'same-instance-history'] + ['deviation-' + d for d in set(DEVIATIONS)]
     for k in need:
         ctx.need_event(k)
     ctx.assumptions = ['RSA/ECDSA links only (the cascade checker dispatches only these); validity periods are not part of the statement',
